@@ -51,7 +51,8 @@ def sumRep (fill : Ext) : Nat → Ext
   | 0 => .fin 0
   | n + 1 => Ext.add (sumRep fill n) fill
 
-/-- region of finding F-sum-nonfinite-fill: a lane without unstored elements and a fill that is not finite -/
+/-- the one place where `fill * n` is NOT the sum of `n` copies of the fill: no copies at all and a fill that is not finite
+(`inf * 0`, `nan * 0`); the code must not multiply there (it did until 31e7856: former finding F-sum-nonfinite-fill) -/
 def ExcludedFullLane (fill : Ext) (missing : Nat) : Bool := missing == 0 && !fill.isFinite
 
 end SparseV.FillPolicy
